@@ -46,9 +46,11 @@ func (self *Transformer) stmtCanControlLoop(node ast.AnalyzedStatement) bool {
 		// Therefore, this is the only factor that influences whether this node counts as a break
 		return self.exprCanControlLoop(node.Condition)
 	case ast.ForStatementKind:
+		node := node.(ast.AnalyzedForStatement)
 		// The body is irrelevant here, if it contains a loop control keyword,
-		// it will be addressing this loop node
-		return false
+		// it will be addressing this loop node.
+		// Like the condition of a `while`, the iterator expression is evaluated outside of this loop.
+		return self.exprCanControlLoop(node.IterExpression)
 	case ast.ExpressionStatementKind:
 		node := node.(ast.AnalyzedExpressionStatement)
 		return self.exprCanControlLoop(node.Expression)
